@@ -4,6 +4,7 @@ import Upf.Gen.Leaf
 import Upf.Model.LockFacts
 import Upf.Proofs.TeidWorld
 import Upf.Proofs.History
+import Upf.Proofs.AgentReply
 /-!
 # C07 — UP-chosen identifiers are unique among live users
 
@@ -98,5 +99,28 @@ example : Agent.chosen (Agent.establish { accessIP := 0xC6120101, coreIP := 0x7F
     { nodeID := "smf", cpSeid := 1, cpIP := 1,
       pdrs := [{ id := 1, prec := 1, srcIface := some 0, fteid := some (true, 0, 0), ueip := some (2, 0x0A3C0001), farID := 1 }],
       fars := [{ id := 1, action := 2, fwd := some { dst := some 1 } }], qers := [] }).1 = [1] := by decide +kernel
+
+/-- a Session Modification that is refused — at whatever point: a rule that does not parse, a Remove PDR / FAR / QER naming an unknown
+rule after other removals were already applied to the handler's copy — releases no TEID and leaves the store as it was: the TEID of
+a PDR that stays stored stays in use -/
+theorem refused_modification_releases_no_teid (cfg : Agent.Cfg) (w : Agent.World) (a : Nat) (r : Agent.ModReq)
+    (hrej : (Agent.modify cfg w a r).reply.cause ≠ Agent.causeAccepted) :
+    (Agent.modify cfg w a r).world.conns = w.conns ∧ (Agent.modify cfg w a r).world.teid = w.teid :=
+  Agent.refused_modification_commits_nothing cfg w a r hrej
+
+section
+open Agent
+def exCfgT : Cfg := { accessIP := 0xC6120101, coreIP := 0x7F000001, ueAlloc := false, endMarker := false, qci := [] }
+def exWT : World := (establish exCfgT { conns := [(0, { remoteNode := "smf" })] } 0 77
+    { nodeID := "smf", cpSeid := 1, cpIP := 1,
+      pdrs := [{ id := 1, prec := 1, srcIface := some 0, fteid := some (true, 0, 0), ueip := some (2, 0x0A3C0001), farID := 1 }],
+      fars := [{ id := 1, action := 2, fwd := some { dst := some 1 } }], qers := [] }).1
+-- non-vacuity: Remove PDR 1 (its TEID was chosen by the UP) followed by Remove QER 999 (unknown) is refused, and TEID 1 stays in use
+example : (modify exCfgT exWT 0 { seid := 77, removePdrs := [1], removeQers := [999] }).reply.cause ≠ causeAccepted ∧
+    (modify exCfgT exWT 0 { seid := 77, removePdrs := [1], removeQers := [999] }).world.teid.used 0 = true ∧
+    -- while the accepted removal does return it
+    (modify exCfgT exWT 0 { seid := 77, removePdrs := [1] }).reply.cause = causeAccepted ∧
+    (modify exCfgT exWT 0 { seid := 77, removePdrs := [1] }).world.teid.used 0 = false := by decide +kernel
+end
 
 end Props.C07
